@@ -65,15 +65,19 @@ def drive(tier, seed, features=(), release=False, extra_args=(), label="drive", 
         return c
     t0 = time.time()
     binp = build_harness(feats, release)
-    chunks, runs, steps = (4, 12, 60) if tier == "quick" else (16, 60, 70)
+    chunks, runs, steps = (5, 12, 60) if tier == "quick" else (16, 60, 70)
     if small:
         chunks, runs, steps = (2, 8, 50) if tier == "quick" else (4, 30, 60)
     tdir = _trace_dir()
     def one(i):
         cseed = seed * 1000 + i
         trace = os.path.join(tdir, "%s-%s-%d.ndjson" % (label, key[:10], i))
-        rc, out, dt = sh([binp, "drive", "--seed", str(cseed), "--runs", str(runs), "--steps", str(steps),
-                          "--out", trace] + list(extra_args), timeout=900, check=False)
+        margs = ["--runs", str(runs), "--steps", str(steps)]
+        if i == chunks - 1 and not small:
+            # last chunk: large populations (several growth steps, dozens of entities per archetype)
+            margs = ["--runs", "2" if tier == "quick" else "8", "--steps", "90" if tier == "quick" else "160", "--big",
+                     "--max-live", "70" if tier == "quick" else "150", "--max-probe", "10"]
+        rc, out, dt = sh([binp, "drive", "--seed", str(cseed)] + margs + ["--out", trace] + list(extra_args), timeout=1800, check=False)
         if rc != 0:
             # the process died (signal, abort, or a panic in a place nothing can catch): that is
             # data about the code under test, not a tool failure -- append a crash event
